@@ -388,3 +388,9 @@ func vh_C05_step_clear_range() {
 	vobserve("n", uint64(n))
 	vcover("end")
 }
+
+// C05.L7: the cumulative point starts at the initial TSN of the peer that completes the
+// handshake, whichever packet carried it (INIT, INIT ACK, with losses and collisions): the
+// first SACK never covers a TSN that was not received (= C04.L1 / L1b, which assert it).
+func vh_C05_L7_initial_cumulative_point_client_server()     { vh_C04_L1_client_server() }
+func vh_C05_L7_initial_cumulative_point_simultaneous_open() { vh_C04_L1_simultaneous_open() }
